@@ -5,7 +5,7 @@ import itertools
 from symx import core
 from symx.core import is_sym, ssum
 from symx.stubs import facade
-from harness.common import (Shape, curated_shapes, proper_shapes, build_mdp, sym_rewards, implicit_absorbing)
+from harness.common import (Shape, curated_shapes, proper_shapes, generated_shapes, build_mdp, sym_rewards, implicit_absorbing)
 
 PROPERTY = 'C02'
 FUNCTIONS = [
@@ -22,12 +22,14 @@ ASSUMPTIONS = [
 OUTSIDE = ['state counts above the bound', 'policies outside the row menu (except the one symbolic probability)', 'rounding / ill-conditioning near gamma -> 1']
 
 SHAPES = curated_shapes()
+NCUR = len(SHAPES)
+SHAPES = SHAPES + generated_shapes(80)      # thorough tier only
 PROPER = proper_shapes()
 H, Q1, Q3 = F(1, 2), F(1, 4), F(3, 4)
 
 
 def bounds(tier):
-    return dict(shapes=[s.name for s in SHAPES] + [s.name + '(g=1)' for s in PROPER] + ['undisc-trap shapes'],
+    return dict(shapes=[s.name for s in SHAPES[:NCUR]] + ([f'{len(SHAPES) - NCUR} generated skeletons (2-4 states, 1-3 actions)'] if tier != 'quick' else []) + [s.name + '(g=1)' for s in PROPER] + ['undisc-trap shapes'],
                 gammas=['1/2', '9/10', '1'], policy_rows='point masses, 1/2-1/2, 1/4-3/4 (incl. zero mass on available actions)',
                 rewards='[-1,1] symbolic ([-1,0] at gamma=1)')
 
@@ -37,6 +39,8 @@ def row_menu(n):
         return [[F(1)]]
     if n == 2:
         return [[F(1), F(0)], [F(0), F(1)], [H, H], [Q1, Q3]]
+    if n == 3:
+        return [[F(1), F(0), F(0)], [F(0), F(0), F(1)], [F(1, 3), F(1, 3), F(1, 3)], [H, Q1, Q1], [F(0), Q3, Q1]]
     raise ValueError
 
 
@@ -346,7 +350,13 @@ def eval_undiscounted_symbolic(sx):
 def jobs(tier):
     quick = tier == 'quick'
     o = dict(timeout_ms=15000, budget_s=(120 if tier == 'quick' else 600), max_paths=3000)
-    for i, sh in enumerate(SHAPES):
+    if not quick:
+        for i in range(NCUR, len(SHAPES)):
+            for g in ['1/2', '9/10']:
+                for combo in policies(SHAPES[i], 'quick'):
+                    yield ('eval_discounted', dict(shape=i, gamma=g, combo=list(combo)), o)
+            yield ('eval_discounted', dict(shape=i, gamma='1/2', combo=list(policies(SHAPES[i], 'quick')[-1]), via='permuted', calls=2), o)
+    for i, sh in enumerate(SHAPES[:NCUR]):
         for g in ['1/2', '9/10']:
             for combo in policies(sh, tier):
                 yield ('eval_discounted', dict(shape=i, gamma=g, combo=list(combo)), o)
@@ -365,6 +375,6 @@ def jobs(tier):
         for combo in policies(sh, 'quick')[:(2 if quick else 6)]:
             yield ('eval_undiscounted', dict(shape=i, combo=list(combo), calls=2), o)
         yield ('eval_undiscounted', dict(shape=i, combo=list(policies(sh, 'quick')[-1]), via='permuted'), o)
-    for i in ([1, 3] if quick else range(len(SHAPES))):
+    for i in ([1, 3] if quick else range(NCUR)):
         yield ('eval_discounted', dict(shape=i, gamma='1/2', combo=list(policies(SHAPES[i], 'quick')[-1]), calls=2), o)
     yield ('eval_undiscounted_symbolic', dict(), dict(o, timeout_ms=120000))
